@@ -848,7 +848,7 @@ func (e *Engine) obligeNamed(st *State, fr *Frame, kind, label string, goal *smt
 	}
 	V.nOblig[base]++
 	ob := &Obligation{Name: base, Fn: top, Kind: kind, Label: label, Goal: goal, Pos: pos, Ord: V.nOblig[base],
-		Hyps: append([]*smt.Term(nil), st.PC...), Path: append([]string(nil), st.Trace...)}
+		Hyps: append([]*smt.Term(nil), st.PC...), Path: append([]string(nil), st.Trace...), Inputs: V.Inputs}
 	seenLA := map[*smt.Term]bool{}
 	for _, a := range st.Heap {
 		for _, v := range e.versionedArrs(a) {
